@@ -207,6 +207,9 @@ func streamMarks(s *stream.Stream, c *streamCtx, corpus string) error {
 		}
 		for i := 0; i < n; i++ {
 			src := genFile(rand.New(rand.NewSource(c.rng.Int63())), fmt.Sprintf("p%d", i))
+			if i%10 == 7 { // no newline at the end of the file: the last line is code (a one-line function)
+				src = strings.TrimRight(src, "\n") + "\n\nfunc tailNeg(a int) int { return -a }"
+			}
 			p := filepath.Join(dir, fmt.Sprintf("g%04d.go", i))
 			if err := os.WriteFile(p, []byte(src), 0644); err != nil {
 				return err
